@@ -117,6 +117,20 @@ def callWith {α : Type} (cfg : SendCfg) (st : ClientState) (req : Request) (pos
     | .ok v => .ret (some v)
     | .error e => .exc e
 
+/-- the exception classes that carry the response they were raised for (`e.response`): the three response exceptions -/
+def _root_.Uds.PyErr.carriesResponse : PyErr → Bool
+  | .negative _ | .invalid | .unexpected => true
+  | _ => false
+
+/-- `callWith` as the method's decorator sees it: a response exception carries the response it was raised for, a returned value is the response object -/
+def callWithI {α : Type} (cfg : SendCfg) (st : ClientState) (req : Request) (post : Bytes → Py α) (arr : List Frame) : Inner :=
+  match (sendRequest cfg st req none arr).outcome with
+  | .none => .ret none
+  | .raised e r _ => .exc e r
+  | .resp r => match post r.data with
+    | .ok _ => .ret (some r)
+    | .error e => .exc e (if e.carriesResponse then some r else none)
+
 /-- how the configured security algorithm is invoked: which of `seed`, `level`, `params` it receives
     (by reflection on its signature; an opaque callable gets all three) -/
 structure AlgoCall where
